@@ -119,8 +119,9 @@ static Op gen_pattern_op(Rng& r, bool with_input) {
   bool ic = r.chance(1, 4);
   int ptype = r.chance(1, 2) ? 1 : 0;
   static const char* const hostp[] = {"example.com", "*.example.com", ":sub.example.com", "{www.}?example.com",
-                                      "*", "(.*)\\.example\\.com", "EXAMPLE.com", "ex\xc3\xa4mple.com", "127.0.0.1", "[::1]"};
-  static const char* const protop[] = {"https", "http{s}?", "*", ":p", "(https?)", "ws", "foo"};
+                                      "*", "(.*)\\.example\\.com", "EXAMPLE.com", "ex\xc3\xa4mple.com", "127.0.0.1", "[::1]",
+                                      ":host(.*)", "(.*)", ":h"};
+  static const char* const protop[] = {"https", "http{s}?", "*", ":p", "(https?)", "ws", "foo", ":proto(.*)"};
   if (ptype == 0) {
     std::string s;
     switch (r.below(4)) {
@@ -136,9 +137,10 @@ static Op gen_pattern_op(Rng& r, bool with_input) {
     if (r.chance(1, 2)) op.args[3] = pick(r, hostp);
     if (r.chance(1, 4)) op.args[4] = pickl(r, {"443", "80", "8080", "*", ":port", ""});
     if (r.chance(3, 4)) op.args[5] = gen_pat_path(r);
-    if (r.chance(1, 4)) op.args[6] = r.chance(1, 2) ? std::string(pick(r, kLit)) : std::string(pickl(r, {"q=:v", "*", "a=b", ""}));
-    if (r.chance(1, 5)) op.args[7] = r.chance(1, 2) ? std::string(pick(r, kLit)) : std::string(pickl(r, {":h", "*", "frag", ""}));
-    if (r.chance(1, 8)) op.args[1] = pickl(r, {"user", "*", ":u"});
+    if (r.chance(1, 4)) op.args[6] = r.chance(1, 2) ? std::string(pick(r, kLit)) : std::string(pickl(r, {"q=:v", "*", "a=b", "", ":query(.*)", "(.*)", "\\?a", "a"}));
+    if (r.chance(1, 5)) op.args[7] = r.chance(1, 2) ? std::string(pick(r, kLit)) : std::string(pickl(r, {":h", "*", "frag", "", ":frag(.*)", "\\#x"}));
+    if (r.chance(1, 8)) op.args[1] = pickl(r, {"user", "*", ":u", ":user(.*)"});
+    if (r.chance(1, 12)) op.args[2] = pickl(r, {"pw", "*", ":pw(.*)"});
     if (r.chance(1, 6)) op.args[8] = "https://example.com/base/";
   }
   int itype = 0;
@@ -181,6 +183,19 @@ static Op gen_pattern_op(Rng& r, bool with_input) {
       }
     }
     op.args[9] = u;
+    if (r.chance(1, 6)) {
+      // component-dictionary input (url_pattern_init) instead of a URL string: delimiters may be repeated or missing
+      itype = 2;
+      for (int k = 9; k < 18; k++) op.args[size_t(k)].reset();
+      if (r.chance(2, 3)) op.args[9] = pickl(r, {"https", "http", "https:", "ws", "foo"});
+      if (r.chance(1, 6)) op.args[10] = pickl(r, {"user", "u:p", ""});
+      if (r.chance(2, 3)) op.args[12] = pick(r, hosts);
+      if (r.chance(1, 4)) op.args[13] = pickl(r, {"443", "8080", "80", ""});
+      if (r.chance(3, 4)) op.args[14] = r.chance(1, 5) ? gen_in_path(r).substr(1) : gen_in_path(r);
+      if (r.chance(1, 2)) op.args[15] = std::string(pickl(r, {"", "?", "??", "???"})) + (r.chance(1, 2) ? std::string(pick(r, kLit)) : std::string(pickl(r, {"a", "q=1", "a=b", ""})));
+      if (r.chance(1, 3)) op.args[16] = std::string(pickl(r, {"", "#", "##"})) + (r.chance(1, 2) ? std::string(pick(r, kLit)) : std::string(pickl(r, {"x", "frag", ""})));
+      if (r.chance(1, 5)) op.args[17] = pickl(r, {"https://example.com/base/", "http://other.org/dir/file?q#f", "not a url"});
+    }
   }
   op.sub = uint8_t((ic ? 1 : 0) | (ptype << 1) | (itype << 2));
   return op;
@@ -261,6 +276,37 @@ static Op gen_pair_op(Rng& r, std::string& kind) {
   op.kind = OP_PATTERN;
   op.args.assign(18, std::nullopt);
   op.sub = uint8_t((r.chance(1, 8) ? 1 : 0) | (1 << 1) | (0 << 2));
+  if (r.chance(1, 6)) {
+    // a port that only LOOKS like the default (leading zeros): the Standard elides by string comparison, so it
+    // stays and canonicalises exactly as it does next to a non-special protocol
+    kind = "port0";
+    static const char* const pp[][2] = {{"https", "0443"}, {"http", "080"}, {"ws", "0080"}, {"wss", "00443"}, {"ftp", "021"},
+                                        {"https", "00080"}, {"http", "00443"}};
+    auto& e = pp[r.below(7)];
+    op.args[0] = e[0];
+    op.args[4] = e[1];
+    if (r.chance(1, 2)) op.args[3] = "example.com";
+    return op;
+  }
+  if (r.chance(1, 5)) {
+    // constructor STRING whose literal scheme is written in another case: the protocol canonicalises to lower case and
+    // "protocol matches a special scheme" is decided on the compiled component, so nothing else may change
+    kind = "ctorcase";
+    op.sub = uint8_t((r.chance(1, 8) ? 1 : 0) | (0 << 1) | (0 << 2));
+    static const char* const sch[] = {"HTTPS", "Http", "hTTps", "WS", "Wss", "FTP", "Foo", "https", "FILE"};
+    std::string str = std::string(pick(r, sch));
+    switch (r.below(4)) {
+      case 0: str += "://example.com"; break;
+      case 1: str += "://" + std::string(pickl(r, {"example.com", "*.example.com", ":sub.example.org", "127.0.0.1"})) + pickl(r, {"", ":8080", ":443", ":*"}); break;
+      case 2: str += "\\:" + std::string(pickl(r, {"example.com/foo", "opaque", "a/b"})); break;
+      default: str += "://h"; break;
+    }
+    if (r.chance(1, 2)) str += gen_pat_path(r);
+    if (r.chance(1, 2)) str += pickl(r, {"?q=1", "?:v", "?*", "?"});
+    if (r.chance(1, 3)) str += pickl(r, {"#frag", "#:h", "#"});
+    op.args[0] = str;
+    return op;
+  }
   if (r.chance(1, 4)) {
     kind = "port";
     static const char* const pp[][2] = {{"https", "443"}, {"http", "80"}, {"ws", "80"}, {"wss", "443"}, {"ftp", "21"},
@@ -294,6 +340,19 @@ static Op gen_pair_op(Rng& r, std::string& kind) {
 // the spelled-out twin of a pair op, or nullopt when the pair does not apply (e.g. the base does not parse)
 static std::optional<Op> pair_twin(const Op& a, const std::string& kind) {
   Op b = a;
+  if (kind == "port0") {
+    if (!a.args[0] || !a.args[4]) return std::nullopt;
+    b.args[0] = "foo";  // no default port: whatever the port canonicalises to next to 'foo' is what it must be next to a special scheme
+    return b;
+  }
+  if (kind == "ctorcase") {
+    if (!a.args[0]) return std::nullopt;
+    std::string t = *a.args[0];
+    for (size_t i = 0; i < t.size() && t[i] != ':' && t[i] != '\\'; i++) t[i] = char(tolower((unsigned char)t[i]));
+    if (t == *a.args[0]) return std::nullopt;
+    b.args[0] = t;
+    return b;
+  }
   if (kind == "port") {
     if (!a.args[0] || !a.args[4]) return std::nullopt;
     // The Standard compares the protocol *string as given* with the special schemes (which are lower case): 'HTTPS'
@@ -545,13 +604,20 @@ static Result execute(const Plan& p, Stats& st) {
       if (oka && okb) {
         st.add("pair." + kind + ".constructed");
         for (const char* f : {"p.protocol", "p.username", "p.password", "p.hostname", "p.port", "p.pathname", "p.search", "p.hash"}) {
+          if (kind == "port0" && strcmp(f, "p.port") != 0) continue;  // the twin differs in its protocol by construction
+          // Default-port elision compares the protocol string AS WRITTEN with the (lower-case) special schemes, so
+          // 'HTTPS://h:443' keeps its port while 'https://h:443' drops it: the port is the one field in which the case
+          // of a literal scheme legitimately matters. (A first version compared it and raised a false alarm.)
+          if (kind == "ctorcase" && strcmp(f, "p.port") == 0) continue;
           std::string x = snap_field(a.substr(2), f), y = snap_field(b.substr(2), f);
           if (x != y && why.empty()) why = std::string(f) + "='" + printable(x) + "' but the spelled-out twin has '" + printable(y) + "'";
         }
       }
       if (!why.empty()) {
         res.violation = true;
-        res.vclass = kind == "port" ? "default-port-elision-changes-outcome" : "base-inheritance-changes-outcome";
+        res.vclass = kind == "port" || kind == "port0" ? "default-port-elision-changes-outcome"
+                     : kind == "ctorcase"             ? "scheme-case-changes-outcome"
+                                                      : "base-inheritance-changes-outcome";
         res.sig = why.substr(0, why.find('='));
         res.detail = ops[0].pretty() + " vs " + twin->pretty() + ": " + why;
         return res;
